@@ -63,6 +63,7 @@ class C17(Check):
         self.oracle_dropped = 0
         self.oracle_bad = []
         self._treeerr = set()
+        self._wfx_only = set()
         self._oracle_cache = {}
         self._n = 0
 
@@ -118,6 +119,9 @@ class C17(Check):
         root = common.scratch() / "c17"
         root.mkdir(parents=True, exist_ok=True)
         f = root / ("main.f90" if self._n % 2 else "main.F90")
+        other = root / ("main.F90" if self._n % 2 else "main.f90")
+        if other.exists():
+            other.unlink()      # finder.find parses every file of the code base
         with open(f, "w", newline="") as fh:
             fh.write(text)
         try:
@@ -184,9 +188,13 @@ class C17(Check):
     def spec(self, case, ans):
         if ans is None or isinstance(ans, str):
             return None
-        wf, lines = ans[1]
+        wf, lines, wfx = ans[1]
         tagged = sorted([n, d] for n, d in lines)
-        if not wf:
+        if not wf and wfx:
+            # well formed except for backslashes inside character literals: the class of the known finding
+            self._wfx_only.add(self.key(case))
+            self.hist["backslash_in_literal_cases"] = len(self._wfx_only)
+        elif not wf:
             return ["NotWF", tagged]
         sel = []
         if case[1]:
@@ -252,6 +260,9 @@ class C17(Check):
         return bool(feats & {"continuation", "literal_special", "sentinel"})
 
     def classify(self, case, ia, sa):
+        # narrow: the text violates Spec/C17.v [wf] ONLY by backslashes inside character literals
+        if self.key(case) in self._wfx_only:
+            return "backslash-in-literal"
         return None
 
     def shrink(self, case, still_fails):
@@ -263,6 +274,21 @@ class C17(Check):
         text3 = "".join(chars)
         ds = common.shrink_list(defsets, lambda d: still_fails([text3, d])) if defsets else defsets
         return [text3, ds]
+
+    def self_tests(self):
+        """S reads a backslash in a literal as an ordinary character: validate against gfortran."""
+        if shutil.which("gfortran") is None:
+            return []
+        d = common.scratch() / "gfs"
+        d.mkdir(parents=True, exist_ok=True)
+        src = "program p\n  print *, 'a\\'\n  print *, 'b' ! c\nend program p\n"
+        (d / "s.f90").write_text(src)
+        p1 = subprocess.run(["gfortran", "-fsyntax-only", "s.f90"], cwd=d, capture_output=True, text=True)
+        p2 = subprocess.run(["gfortran", "-cpp", "-fsyntax-only", "s.f90"], cwd=d, capture_output=True, text=True)
+        out = []
+        if p1.returncode != 0 or p2.returncode != 0:
+            out.append("gfortran rejects a literal ending in a backslash: S's reading of backslashes is not gfortran's default")
+        return out
 
     def extra_coverage(self):
         return {"input_distribution": self.hist,
